@@ -424,6 +424,19 @@ pub fn generate(g: &mut Gen, thorough: bool) {
             }
         }
     }
+    // grid names that lead out of the data directories, to things that are not files (a device that never ends, a
+    // directory, nothing at all): an error, at once
+    for opname in ["gridshift", "deformation dt=1", "deflection"] {
+        for name in ["/dev/zero", "/dev/zero.gsb", "@/dev/zero", "test.datum,/dev/zero", "/dev/null", "/", "..", "../../../../dev/zero", "/proc/self/mem", "/dev/zero,@null", "/tmp"] {
+            let def = format!("{opname} grids={name}");
+            let d = data(&mut g.rng, 2);
+            g.push(case("plain", &[], &def, &d), "oracle-grid-names-that-are-not-files", true);
+            g.push(case("default", &[], &def, &d), "oracle-grid-names-that-are-not-files", true);
+            if !name.contains('@') && !name.contains("null") && !name.contains("test.datum") {
+                g.push(format!("S_C09G\t{}", escape(&def)), "oracle-grid-names-that-are-not-files-clock", true);
+            }
+        }
+    }
     // steps made of modifiers only (nothing to rotate them past): an error, at once
     for def in [
         "inv inv", "inv omit_fwd", "omit_fwd omit_inv", "inv inv inv", "addone > inv", "addone < inv", "addone | inv inv | addone", "inv", "omit_inv", "addone | inv",
